@@ -592,7 +592,8 @@ def run_cases(ctx, cases, name, rows_fn=None, chunk=40):
                 v = VERD.get(o["v"], 2)
                 val = "None"
                 # a legal value that coincides with the zero value of its Go type is printed like "unset" by the dump: verdict only
-                if o["v"] == "ACC" and o.get("dump") is not None and not any(z in json.dumps(d["doc"]) for z in FMT_ZERO if z != '""'):
+                # (a null document leaves every field at the zero value of its Go type; the model's zero of a referenced type is opaque: verdict only)
+                if o["v"] == "ACC" and o.get("dump") is not None and d["doc"] is not None and not any(z in json.dumps(d["doc"]) for z in FMT_ZERO if z != '""'):
                     try:
                         val = "(Some %s)" % gval_term(o["dump"])
                     except ValueError:
